@@ -775,6 +775,66 @@ func runC20(w *World, r *Report) {
 		}
 	}
 
+	r.Rule("C20.workflow-nil-branch", "Workflow.compile reads through a deferred branch (its end nodes, promoted through the embedded *GraphBranch) only behind a nil test of that pointer: AddBranch(from, nil) is an error of Compile like Graph.AddBranch(nil) is an error, never a nil dereference", 1)
+	{
+		wfc := w.Fn("compose", "Workflow.compile")
+		fGB := w.Field("compose", "WorkflowBranch", "GraphBranch")
+		n, bad := 0, 0
+		var at token.Pos
+		instrs(wfc, func(in ssa.Instruction) {
+			fa, ok := in.(*ssa.FieldAddr)
+			if !ok || !isLoadOfField(fa.X, fGB) {
+				return
+			}
+			n++
+			if hasGuard(fa.Block(), func(g guard) bool { return guardNonNil(g, func(v ssa.Value) bool { return isLoadOfField(v, fGB) }) }) {
+				return
+			}
+			// … or behind a completed validation pass: a loop over the deferred branches that returns an error on a nil
+			// one has been left through its header (exhausted) before this block is reached
+			for _, li := range naturalLoops(wfc) {
+				validates := false
+				for b := range li.body {
+					if len(b.Instrs) == 0 {
+						continue
+					}
+					iff, ok := b.Instrs[len(b.Instrs)-1].(*ssa.If)
+					if !ok {
+						continue
+					}
+					op, x, y, ok := asCmp(iff.Cond)
+					if !ok || !isNilConst(y) || !isLoadOfField(x, fGB) {
+						continue
+					}
+					nilSucc := b.Succs[0]
+					if op == token.NEQ {
+						nilSucc = b.Succs[1]
+					}
+					if reach, _ := pathFromBlock(pathQuery{fn: wfc, goal: func(x ssa.Instruction) bool {
+						ret, ok := x.(*ssa.Return)
+						return ok && len(ret.Results) == 2 && !isNilConst(ret.Results[1])
+					}, avoidEdge: func(_, to *ssa.BasicBlock) bool { return li.body[to] }}, nilSucc); reach {
+						validates = true
+					}
+				}
+				if !validates || li.body[fa.Block()] {
+					continue
+				}
+				for _, ex := range li.header.Succs {
+					if !li.body[ex] && (ex == fa.Block() || ex.Dominates(fa.Block())) {
+						return
+					}
+				}
+			}
+			bad++
+			at = fa.Pos()
+		})
+		if n == 0 {
+			undecidedf("C20.workflow-nil-branch: Workflow.compile does not read through WorkflowBranch.GraphBranch")
+		}
+		r.Check(bad == 0, "C20.workflow-nil-branch", "Workflow.compile: deferred branches are read behind a nil test", wfc.Pos(), fmt.Sprintf("%d reads through the embedded *GraphBranch, all under != nil", n), fmt.Sprintf("%d of %d reads through the embedded *GraphBranch (first at %s) are not dominated by a nil test: Workflow.AddBranch(from, nil) makes Compile panic with a nil pointer dereference in its own validation loop, before the inner graph — which refuses a nil branch with an error — ever sees it", bad, n, w.pos(at)))
+	}
+
 	r.Rule("C20.workflow-compile-once", "Workflow.compile: branch end nodes are validated before any branch is pushed into the inner graph; every container of deferred declarations (inputs, branches, static values) is reset once applied; pending declarations on an already compiled workflow are ErrGraphCompiled", 5)
 	{
 		wfc := w.Fn("compose", "Workflow.compile")
@@ -1427,6 +1487,26 @@ func runC20(w *World, r *Report) {
 		nApp++
 	}
 	r.Check(nApp >= 10, "C20.chain-sticky", "Chain Append* methods inventoried", chainT.Obj().Pos(), fmt.Sprintf("%d methods", nApp), "Append* methods not found")
+	// once the END edges are in (a Compile was attempted) nothing is appended any more: every call that adds a node to
+	// the inner graph from a Chain method is reached only with the chain's own 'END edges are in' flag still false
+	{
+		flag, _ := chainEndOnceFlag(w)
+		gAddNode := w.Fn("compose", "graph.addNode")
+		n := 0
+		for _, fn := range w.RepoFuncs("compose") {
+			if fn.Parent() != nil || namedOfRecv(fn) != chainT.Origin() {
+				continue
+			}
+			for _, c := range callsTo(fn, gAddNode) {
+				n++
+				guarded := flag != nil && hasGuard(c.Block(), func(g guard) bool { return !g.pol && isLoadOfField(g.cond, flag) })
+				r.Check(guarded, "C20.chain-sticky", fmt.Sprintf("%s: node added only while the END edges are not in (#%d)", w.fname(fn), n), c.Pos(), "guarded by the chain's END flag being false", "a stage can be appended after a Compile attempt has added the END edges (a Compile refused for a reason that is not sticky: an unsupported option, a nested graph not complete yet): the node that was last then keeps its END edge, the stages appended afterwards get none, and the next Compile succeeds with a runnable that silently ignores them — the same Append sequence gives \"in1\" after a failed attempt and \"in12\" without it")
+			}
+		}
+		if n < 3 {
+			undecidedf("C20.chain-sticky: only %d graph.addNode calls in Chain methods", n)
+		}
+	}
 }
 
 var nilMissExceptions = map[string]string{
